@@ -290,7 +290,7 @@ class Rig:
     """One Audio object with fakes; ``apply(inp)`` performs one input and returns the
     observation of that step."""
 
-    def __init__(self, rng=None, with_mixer=True, attach_mixer=True):
+    def __init__(self, rng=None, with_mixer=True, attach_mixer=True, real_listener=False):
         from mopidy import listener as listener_mod
         from mopidy.audio import actor as actor_mod
         from mopidy.internal.gi import GLib, Gst
@@ -309,8 +309,16 @@ class Rig:
             self._events.append((cls.__name__, event, kwargs, snapshot_payload(event, kwargs)))
 
         self._orig_send = listener_mod.send
-        listener_mod.send = capture
         self._listener_mod = listener_mod
+        self._recorder = None
+        if real_listener:
+            # Observe the events where a listener actor RECEIVES them: a started pykka actor
+            # that mixes in AudioListener/MixerListener, found by mopidy.listener.send through
+            # the pykka registry; its mailbox is drained after every step.  The shared
+            # dispatch helper mopidy.listener.send is then part of what is checked.
+            self._recorder = start_recorder()
+        else:
+            listener_mod.send = capture
 
         rig = self
 
@@ -398,6 +406,9 @@ class Rig:
 
     def close(self):
         self._listener_mod.send = self._orig_send
+        if self._recorder is not None:
+            self._recorder.stop(block=True, timeout=10)
+            self._recorder = None
         if self._orig_missing is None:
             try:
                 del self._pbutils.is_missing_plugin_message
@@ -547,6 +558,9 @@ class Rig:
             ret = ("raise", type(e).__name__)
         self._state_results.clear()
         self._seek_results.clear()
+        if self._recorder is not None:
+            # FIFO mailbox: this call returns after every event told before it was handled
+            self._events.extend(self._recorder.proxy().take().get(timeout=10))
         events = []
         for cls, name, kwargs, snap in self._events:
             events.append({"cls": cls, "name": name, "sent": snap, "live": kwargs})
@@ -562,6 +576,30 @@ class Rig:
             "buffering": bool(a._buffering),
             "tags": canon_tags(a.get_current_tags()),
         }
+
+
+MIXER_EVENTS = {"volume_changed", "mute_changed"}
+
+
+def start_recorder():
+    import pykka
+    from mopidy.audio.listener import AudioListener
+    from mopidy.mixer import MixerListener
+
+    class Recorder(pykka.ThreadingActor, AudioListener, MixerListener):
+        def __init__(self):
+            super().__init__()
+            self.received = []
+
+        def on_event(self, event, **kwargs):
+            cls = "MixerListener" if event in MIXER_EVENTS else "AudioListener"
+            self.received.append((cls, event, kwargs, snapshot_payload(event, kwargs)))
+
+        def take(self):
+            out, self.received = self.received, []
+            return out
+
+    return Recorder.start()
 
 
 def _sample(Gst, data):
